@@ -45,6 +45,9 @@ pub struct CtSpec {
     /// lexer only, with this user-supplied rule_ids_map (names may share an id)
     #[serde(default)]
     pub lexer_only_rule_ids: Option<Vec<(String, u32)>>,
+    /// "u32" (default) | "u16" | "u8": the storage type of the builders' lexer types
+    #[serde(default)]
+    pub storaget: Option<String>,
 }
 
 #[derive(Serialize, Deserialize, Clone, Debug, Default, PartialEq)]
@@ -68,152 +71,173 @@ fn kind_of(s: &str) -> YaccKind {
     }
 }
 
-fn parser_opts<'a>(mut pb: CTParserBuilder<'a, DefaultLexerTypes<u32>>, spec: &CtSpec) -> CTParserBuilder<'a, DefaultLexerTypes<u32>> {
-    pb = pb.grammar_path(PathBuf::from(&spec.grammar_path)).output_path(PathBuf::from(&spec.parser_out));
-    if let Some(k) = &spec.yacckind {
-        pb = pb.yacckind(kind_of(k));
-    }
-    if let Some(r) = &spec.recoverer {
-        pb = pb.recoverer(if r == "None" { RecoveryKind::None } else { RecoveryKind::CPCTPlus });
-    }
-    if let Some(v) = &spec.visibility {
-        pb = pb.visibility(match v.as_str() {
-            "Public" => lrpar::Visibility::Public,
-            "PublicCrate" => lrpar::Visibility::PublicCrate,
-            "PublicSuper" => lrpar::Visibility::PublicSuper,
-            "PublicSelf" => lrpar::Visibility::PublicSelf,
-            v if v.starts_with("PublicIn:") => lrpar::Visibility::PublicIn(v["PublicIn:".len()..].to_string()),
-            _ => lrpar::Visibility::Private,
-        });
-    }
-    if let Some(e) = spec.edition {
-        pb = pb.rust_edition(match e {
-            2015 => lrpar::RustEdition::Rust2015,
-            2018 => lrpar::RustEdition::Rust2018,
-            _ => lrpar::RustEdition::Rust2021,
-        });
-    }
-    if let Some(s) = &spec.serialisation {
-        pb = pb.serialisation_format(if s == "Fixed" {
-            lrpar::ctbuilder::SerialisationFormat::FixedSizeInteger
-        } else {
-            lrpar::ctbuilder::SerialisationFormat::VariableSizedInteger
-        });
-    }
-    if let Some(m) = &spec.parser_mod_name {
-        pb = pb.mod_name(Box::leak(m.clone().into_boxed_str()));
-    }
-    if let Some(b) = spec.error_on_conflicts {
-        pb = pb.error_on_conflicts(b);
-    }
-    if let Some(b) = spec.warnings_are_errors {
-        pb = pb.warnings_are_errors(b);
-    }
-    pb.show_warnings(spec.show_warnings.unwrap_or(false))
-}
-
-fn lexer_opts<'a>(mut lb: CTLexerBuilder<'a, DefaultLexerTypes<u32>>, spec: &CtSpec) -> CTLexerBuilder<'a, DefaultLexerTypes<u32>> {
-    lb = lb.lexer_path(PathBuf::from(&spec.lexer_path)).output_path(PathBuf::from(&spec.lexer_out));
-    if let Some(m) = &spec.lexer_mod_name {
-        lb = lb.mod_name(Box::leak(m.clone().into_boxed_str()));
-    }
-    if let Some(v) = &spec.visibility {
-        lb = lb.visibility(match v.as_str() {
-            "Public" => lrlex::Visibility::Public,
-            "PublicCrate" => lrlex::Visibility::PublicCrate,
-            "PublicSuper" => lrlex::Visibility::PublicSuper,
-            "PublicSelf" => lrlex::Visibility::PublicSelf,
-            v if v.starts_with("PublicIn:") => lrlex::Visibility::PublicIn(v["PublicIn:".len()..].to_string()),
-            _ => lrlex::Visibility::Private,
-        });
-    }
-    if let Some(e) = spec.edition {
-        lb = lb.rust_edition(match e {
-            2015 => lrlex::RustEdition::Rust2015,
-            2018 => lrlex::RustEdition::Rust2018,
-            _ => lrlex::RustEdition::Rust2021,
-        });
-    }
-    if let Some(b) = spec.lex_dot_matches_new_line {
-        lb = lb.dot_matches_new_line(b);
-    }
-    if let Some(b) = spec.lex_case_insensitive {
-        lb = lb.case_insensitive(b);
-    }
-    if let Some(b) = spec.lex_posix_escapes {
-        lb = lb.posix_escapes(b);
-    }
-    if let Some(b) = spec.lex_allow_wholeline_comments {
-        lb = lb.allow_wholeline_comments(b);
-    }
-    // the two consistency checks between lexer and grammar: lenient unless asked for
-    lb = lb.allow_missing_terms_in_lexer(!spec.strict_terms_in_lexer.unwrap_or(false));
-    if spec.strict_tokens_in_parser.unwrap_or(false) {
-        lb = lb.allow_missing_tokens_in_parser(false).show_warnings(true).warnings_are_errors(true);
-    } else {
-        lb = lb.allow_missing_tokens_in_parser(true).show_warnings(false);
-    }
-    lb
-}
-
-pub fn ct_build(spec: &CtSpec) -> CtResult {
-    let mut out = CtResult::default();
-    if let Some(ids) = &spec.lexer_only_rule_ids {
-        let sp = spec.clone();
-        let map: std::collections::HashMap<String, u32> = ids.iter().cloned().collect();
-        match crate::exec::catch(move || {
-            let lb = CTLexerBuilder::<DefaultLexerTypes<u32>>::new_with_lexemet().rule_ids_map(map);
-            lexer_opts(lb, &sp).build().map(|_| ()).map_err(|e| e.to_string())
-        }) {
-            Ok(Ok(())) => out.lexer_ok = true,
-            Ok(Err(e)) => out.lexer_error = Some(e),
-            Err(p) => out.panicked = Some(p.detail()),
-        }
-        return out;
-    }
-    if spec.combined.unwrap_or(false) {
-        // the documented one-call flow: the lexer builder drives the parser builder
-        out.combined = true;
-        let sp = spec.clone();
-        let r = crate::exec::catch(move || {
-            let sp2 = sp.clone();
-            let lb = CTLexerBuilder::<DefaultLexerTypes<u32>>::new_with_lexemet().lrpar_config(move |pb| parser_opts(pb, &sp2));
-            lexer_opts(lb, &sp).build().map(|_| ()).map_err(|e| e.to_string())
-        });
-        match r {
-            Ok(Ok(())) => {
-                out.parser_ok = true;
-                out.lexer_ok = true;
+/// The builders are generic over the storage type through their lexer types: one copy of the
+/// step per width.
+macro_rules! ct_impl {
+    ($m:ident, $t:ty) => {
+        pub mod $m {
+            use super::*;
+            fn parser_opts<'a>(mut pb: CTParserBuilder<'a, DefaultLexerTypes<$t>>, spec: &CtSpec) -> CTParserBuilder<'a, DefaultLexerTypes<$t>> {
+                pb = pb.grammar_path(PathBuf::from(&spec.grammar_path)).output_path(PathBuf::from(&spec.parser_out));
+                if let Some(k) = &spec.yacckind {
+                    pb = pb.yacckind(kind_of(k));
+                }
+                if let Some(r) = &spec.recoverer {
+                    pb = pb.recoverer(if r == "None" { RecoveryKind::None } else { RecoveryKind::CPCTPlus });
+                }
+                if let Some(v) = &spec.visibility {
+                    pb = pb.visibility(match v.as_str() {
+                        "Public" => lrpar::Visibility::Public,
+                        "PublicCrate" => lrpar::Visibility::PublicCrate,
+                        "PublicSuper" => lrpar::Visibility::PublicSuper,
+                        "PublicSelf" => lrpar::Visibility::PublicSelf,
+                        v if v.starts_with("PublicIn:") => lrpar::Visibility::PublicIn(v["PublicIn:".len()..].to_string()),
+                        _ => lrpar::Visibility::Private,
+                    });
+                }
+                if let Some(e) = spec.edition {
+                    pb = pb.rust_edition(match e {
+                        2015 => lrpar::RustEdition::Rust2015,
+                        2018 => lrpar::RustEdition::Rust2018,
+                        _ => lrpar::RustEdition::Rust2021,
+                    });
+                }
+                if let Some(s) = &spec.serialisation {
+                    pb = pb.serialisation_format(if s == "Fixed" {
+                        lrpar::ctbuilder::SerialisationFormat::FixedSizeInteger
+                    } else {
+                        lrpar::ctbuilder::SerialisationFormat::VariableSizedInteger
+                    });
+                }
+                if let Some(m) = &spec.parser_mod_name {
+                    pb = pb.mod_name(Box::leak(m.clone().into_boxed_str()));
+                }
+                if let Some(b) = spec.error_on_conflicts {
+                    pb = pb.error_on_conflicts(b);
+                }
+                if let Some(b) = spec.warnings_are_errors {
+                    pb = pb.warnings_are_errors(b);
+                }
+                pb.show_warnings(spec.show_warnings.unwrap_or(false))
             }
-            Ok(Err(e)) => out.lexer_error = Some(e),
-            Err(p) => out.panicked = Some(p.detail()),
-        }
-        return out;
-    }
-    let sp = spec.clone();
-    let ctp = match crate::exec::catch(move || parser_opts(CTParserBuilder::<DefaultLexerTypes<u32>>::new(), &sp).build().map_err(|e| e.to_string())) {
-        Ok(Ok(ctp)) => ctp,
-        Ok(Err(e)) => {
-            out.parser_error = Some(e);
-            return out;
-        }
-        Err(p) => {
-            out.panicked = Some(p.detail());
-            return out;
+
+            fn lexer_opts<'a>(mut lb: CTLexerBuilder<'a, DefaultLexerTypes<$t>>, spec: &CtSpec) -> CTLexerBuilder<'a, DefaultLexerTypes<$t>> {
+                lb = lb.lexer_path(PathBuf::from(&spec.lexer_path)).output_path(PathBuf::from(&spec.lexer_out));
+                if let Some(m) = &spec.lexer_mod_name {
+                    lb = lb.mod_name(Box::leak(m.clone().into_boxed_str()));
+                }
+                if let Some(v) = &spec.visibility {
+                    lb = lb.visibility(match v.as_str() {
+                        "Public" => lrlex::Visibility::Public,
+                        "PublicCrate" => lrlex::Visibility::PublicCrate,
+                        "PublicSuper" => lrlex::Visibility::PublicSuper,
+                        "PublicSelf" => lrlex::Visibility::PublicSelf,
+                        v if v.starts_with("PublicIn:") => lrlex::Visibility::PublicIn(v["PublicIn:".len()..].to_string()),
+                        _ => lrlex::Visibility::Private,
+                    });
+                }
+                if let Some(e) = spec.edition {
+                    lb = lb.rust_edition(match e {
+                        2015 => lrlex::RustEdition::Rust2015,
+                        2018 => lrlex::RustEdition::Rust2018,
+                        _ => lrlex::RustEdition::Rust2021,
+                    });
+                }
+                if let Some(b) = spec.lex_dot_matches_new_line {
+                    lb = lb.dot_matches_new_line(b);
+                }
+                if let Some(b) = spec.lex_case_insensitive {
+                    lb = lb.case_insensitive(b);
+                }
+                if let Some(b) = spec.lex_posix_escapes {
+                    lb = lb.posix_escapes(b);
+                }
+                if let Some(b) = spec.lex_allow_wholeline_comments {
+                    lb = lb.allow_wholeline_comments(b);
+                }
+                // the two consistency checks between lexer and grammar: lenient unless asked for
+                lb = lb.allow_missing_terms_in_lexer(!spec.strict_terms_in_lexer.unwrap_or(false));
+                if spec.strict_tokens_in_parser.unwrap_or(false) {
+                    lb = lb.allow_missing_tokens_in_parser(false).show_warnings(true).warnings_are_errors(true);
+                } else {
+                    lb = lb.allow_missing_tokens_in_parser(true).show_warnings(false);
+                }
+                lb
+            }
+
+            pub fn ct_build(spec: &CtSpec) -> CtResult {
+                let mut out = CtResult::default();
+                if let Some(ids) = &spec.lexer_only_rule_ids {
+                    let sp = spec.clone();
+                    let map: std::collections::HashMap<String, $t> = ids.iter().map(|(n, i)| (n.clone(), *i as $t)).collect();
+                    match crate::exec::catch(move || {
+                        let lb = CTLexerBuilder::<DefaultLexerTypes<$t>>::new_with_lexemet().rule_ids_map(map);
+                        lexer_opts(lb, &sp).build().map(|_| ()).map_err(|e| e.to_string())
+                    }) {
+                        Ok(Ok(())) => out.lexer_ok = true,
+                        Ok(Err(e)) => out.lexer_error = Some(e),
+                        Err(p) => out.panicked = Some(p.detail()),
+                    }
+                    return out;
+                }
+                if spec.combined.unwrap_or(false) {
+                    // the documented one-call flow: the lexer builder drives the parser builder
+                    out.combined = true;
+                    let sp = spec.clone();
+                    let r = crate::exec::catch(move || {
+                        let sp2 = sp.clone();
+                        let lb = CTLexerBuilder::<DefaultLexerTypes<$t>>::new_with_lexemet().lrpar_config(move |pb| parser_opts(pb, &sp2));
+                        lexer_opts(lb, &sp).build().map(|_| ()).map_err(|e| e.to_string())
+                    });
+                    match r {
+                        Ok(Ok(())) => {
+                            out.parser_ok = true;
+                            out.lexer_ok = true;
+                        }
+                        Ok(Err(e)) => out.lexer_error = Some(e),
+                        Err(p) => out.panicked = Some(p.detail()),
+                    }
+                    return out;
+                }
+                let sp = spec.clone();
+                let ctp = match crate::exec::catch(move || parser_opts(CTParserBuilder::<DefaultLexerTypes<$t>>::new(), &sp).build().map_err(|e| e.to_string())) {
+                    Ok(Ok(ctp)) => ctp,
+                    Ok(Err(e)) => {
+                        out.parser_error = Some(e);
+                        return out;
+                    }
+                    Err(p) => {
+                        out.panicked = Some(p.detail());
+                        return out;
+                    }
+                };
+                out.parser_ok = true;
+                out.regenerated = Some(ctp.regenerated());
+                let sp = spec.clone();
+                match crate::exec::catch(move || {
+                    let lb = CTLexerBuilder::<DefaultLexerTypes<$t>>::new_with_lexemet().rule_ids_map(ctp.token_map());
+                    lexer_opts(lb, &sp).build().map(|_| ()).map_err(|e| e.to_string())
+                }) {
+                    Ok(Ok(())) => out.lexer_ok = true,
+                    Ok(Err(e)) => out.lexer_error = Some(e),
+                    Err(p) => out.panicked = Some(p.detail()),
+                }
+                out
+            }
+
         }
     };
-    out.parser_ok = true;
-    out.regenerated = Some(ctp.regenerated());
-    let sp = spec.clone();
-    match crate::exec::catch(move || {
-        let lb = CTLexerBuilder::<DefaultLexerTypes<u32>>::new_with_lexemet().rule_ids_map(ctp.token_map());
-        lexer_opts(lb, &sp).build().map(|_| ()).map_err(|e| e.to_string())
-    }) {
-        Ok(Ok(())) => out.lexer_ok = true,
-        Ok(Err(e)) => out.lexer_error = Some(e),
-        Err(p) => out.panicked = Some(p.detail()),
+}
+ct_impl!(w32, u32);
+ct_impl!(w16, u16);
+ct_impl!(w8, u8);
+
+pub fn ct_build(spec: &CtSpec) -> CtResult {
+    match spec.storaget.as_deref() {
+        Some("u16") => w16::ct_build(spec),
+        Some("u8") => w8::ct_build(spec),
+        _ => w32::ct_build(spec),
     }
-    out
 }
 
 /// `gtv ctstep`: spec as JSON on stdin, result as JSON on stdout (last line).
